@@ -2,6 +2,7 @@
 C09 — variables and lambdas are referentially transparent and lexically scoped.
 -/
 import FendModel.Model.Scope
+import FendModel.Proofs.ScopeLet
 
 namespace Fend.C09
 open Fend.Scope
@@ -156,6 +157,14 @@ theorem beta_first_order (bi : List (String × Rat)) (x : String) (b r : Expr) (
   have := (closure_and_call bi (fuel + 1) x b r sc vs).2 (.lam x b) x b sc vs h1
   rw [this]
   exact body_subst bi x r sc b hb (fuel + 1) vs
+
+/-- **binding a name and using it = writing the parenthesised expression in its place** (top level, closed arithmetic
+right-hand side, body without binders / applications / assignments): `x = e; b` yields exactly what `b[x := (e)]` yields —
+the same value or the same error — in every context, for all sufficient fuel -/
+theorem let_transparent (bi : List (String × Rat)) (x : String) (e : Expr) (q : Rat) (he : closedArith e = true) (hq : ceval e = .ok q)
+    (b : Expr) (hb : plainBody b = true) (fuel : Nat) (hf : depth (subst x e b) ≤ fuel) (hfe : depth e + 1 ≤ fuel) (vs : Vars) :
+    (eval bi (fuel + 1) (.seq (.assign x e) b) .nil vs).1 = (eval bi fuel (subst x e b) .nil vs).1 :=
+  let_statement bi x e q he hq b hb fuel hf hfe vs
 
 -- non-vacuity: `(\x. x * x + k) (2 + 1)` with k = 10 evaluates to 19 both ways
 example : (eval [] 10 (.app (.lam "x" (.bop .add (.bop .mul (.var "x") (.var "x")) (.var "k"))) (.bop .add (.num 2) (.num 1))) .nil
